@@ -85,3 +85,11 @@ pub mod wal {
         }
     }
 }
+
+/// Reach probes on a live database handle.
+pub mod probe {
+    /// (cache hits, cache misses, frames evicted) of the page cache.
+    pub fn cache_stats(db: &crate::Database) -> (u64, u64, u64) {
+        db.pager().read().verif_cache_stats()
+    }
+}
